@@ -533,7 +533,8 @@ func writeEvidence(prop *Prop, tier string, seed int, results []*sx.RunResult, p
 			}
 		}
 		perH = append(perH, map[string]any{"harness": r.Harness, "paths": r.Paths, "paths_completed": r.Done, "paths_pruned_by_assumption": r.Killed,
-			"instructions": r.Steps, "forks": r.Forks, "assertions_checked": r.Obligations, "assertions_discharged": r.Discharged,
+			"instructions": r.Steps, "forks": r.Forks, "assertions_checked": r.Obligations, "assertions_discharged": r.Discharged, "assertions_decided_by_solver_query": r.SolverDecided,
+			"assertions_constant_after_symbolic_simplification": r.Obligations - r.SolverDecided, "path_feasibility_and_choice_queries": int64(r.Solver.Queries) - r.SolverDecided,
 			"solver_queries": r.Solver.Queries, "solver_s": round2(r.Solver.Time.Seconds()), "max_query_s": round2(r.Solver.MaxQuery.Seconds()),
 			"witnesses": r.Reached, "wall_s": round2(r.Wall.Seconds()), "map_range_sites": r.MapRangeSites, "paths_cut_by_model_capacity": r.BoundPrunes,
 			"assertions_cross_checked_by_cvc5": r.CrossChecked, "cvc5_unknown": r.CrossUnknown})
